@@ -214,7 +214,10 @@ class AstMap:
         """
         if not isinstance(std_node, CaitNode):
             raise TypeError
-        self.exp_table[ins_node.astNode.id] = std_node
+        ins_ast = ins_node.astNode
+        # An __expr__ placeholder may also sit in an attribute or argument name (e.g. `obj.__len__`)
+        name = getattr(ins_ast, 'id', None) or getattr(ins_ast, 'attr', None) or getattr(ins_ast, 'arg', None)
+        self.exp_table[name] = std_node
 
     def add_node_pairing(self, ins_node, std_node):
         """
